@@ -9,7 +9,7 @@ Theorem body_correct_gen :
   forall libm avail auto_casts rty lty diff dsel n0 fuel body code s',
   (forall op t, sigil_of_unop op <> None -> avail (KUnOp op t) = false) ->
   lower_body avail auto_casts rty lty fuel body (mklst n0 []) = Ok (code, s') ->
-  wf_body auto_casts rty lty n0 body ->
+  wf_body rty lty n0 body ->
   forall fs st st', fresh lty (p_mem st) n0 ->
   sprog gen_optable libm rty lty diff dsel true fs body Exec st = Ok st' ->
   wprog gen_optable libm lty dsel fs code Exec st None = Ok st'.
@@ -23,14 +23,14 @@ Definition ex_avail (k : ikind) : bool :=
   match k with KAssignOp None _ | KBinOp _ _ | KCountJmp Gt | KJmp | KCondJmp _ _ => true | _ => false end.
 Definition ex_R (r : Z) := EReg None r.
 (*   0:  I0 = 3;
-     10: L0:  ins_7(I0, 2);
+     10: L0:  ins_7(I0 * 2 + 1, 2, I1 - I0);
      20: I1 += I0 * 2 + (I1 - 1);   if (--I0 > 0) goto L0;
      30: I2 = I1 > 10 ? 1 : I1 * 5;   unless (I2 == 1 || I1 < 0) goto L1 @ 30;
      40: ins_8();  L1:  int x = I2 == 1 ? I1 + 1 : 0;  {"H"}: ins_8();  ins_9(x);  (end of x's scope)  ;     *)
 Definition ex_body : list (Z * Z * sstmt) := [
   (0, 255, SAssign (mkvar None (VReg 1010)) None (ELitI 3));
   (10, 255, SLabel (LUser 0));
-  (10, 255, SCall 7 [ex_R 1010; ELitI 2]);
+  (10, 255, SCall 7 [EBin (EBin (ex_R 1010) Mul (ELitI 2)) Add (ELitI 1); ELitI 2; EBin (ex_R 1011) Sub (ex_R 1010)]);
   (20, 255, SAssign (mkvar None (VReg 1011)) (Some Add) (EBin (EBin (ex_R 1010) Mul (ELitI 2)) Add (EBin (ex_R 1011) Sub (ELitI 1))));
   (20, 255, SCondJmp KwIf (CPredecCmp (mkvar None (VReg 1010)) Gt) (LUser 0) None);
   (30, 255, SAssign (mkvar None (VReg 1012)) None (ETern (EBin (ex_R 1011) Gt (ELitI 10)) (ELitI 1) (EBin (ex_R 1011) Mul (ELitI 5))));
@@ -48,8 +48,8 @@ Definition ex_st0 := mkpst (mkmem (fun _ => VInt 0) (fun _ => VInt 0)) 0 0 [].
 Lemma body_example :
   let rty := fun _ : Z => TInt in let lty := fun _ : nat => TInt in let libm := fun (_ : unop) (_ : Z) => 0 in
   exists code s' st',
-    lower_body ex_avail true rty lty 20 ex_body (mklst 1 []) = Ok (code, s') /\ length code = 34%nat /\
-    wf_body true rty lty 1 ex_body /\ fresh lty (p_mem ex_st0) 1 /\
+    lower_body ex_avail true rty lty 20 ex_body (mklst 1 []) = Ok (code, s') /\ length code = 41%nat /\
+    wf_body rty lty 1 ex_body /\ fresh lty (p_mem ex_st0) 1 /\
     sprog gen_optable libm rty lty 0 (Some 0%nat) true 10 ex_body Exec ex_st0 = Ok st' /\
     p_time st' = 40 /\ p_real st' = 60 /\ length (p_log st') = 5%nat /\ regs (p_mem st') 1011 = VInt 27 /\
     wprog gen_optable libm lty (Some 0%nat) 10 code Exec ex_st0 None = Ok st'.
@@ -59,16 +59,12 @@ Proof.
     try (vm_compute in El; discriminate).
   destruct (sprog gen_optable (fun _ _ => 0) (fun _ => TInt) (fun _ => TInt) 0 (Some 0%nat) true 10 ex_body Exec ex_st0) as [st'| | |] eqn:Es;
     try (vm_compute in Es; discriminate).
-  assert (Hwf : wf_body true (fun _ => TInt) (fun _ => TInt) 1 ex_body).
+  assert (Hwf : wf_body (fun _ => TInt) (fun _ => TInt) 1 ex_body).
   { unfold wf_body, ex_body.
-    assert (Harg : forall e, wt_pure (fun _ => TInt) (fun _ => TInt) [] e = true -> locals_below 1 e = true ->
-              (exists a ta, classify true (fun _ => TInt) (fun _ => TInt) [] e = Simple a ta) ->
-              wt_pure (fun _ => TInt) (fun _ => TInt) [] e = true /\ locals_below 1 e = true /\
-              exists a ta, classify true (fun _ => TInt) (fun _ => TInt) [] e = Simple a ta) by auto.
     apply Forall_cons. { cbn [snd wf_stmt]. split; [exact I|]. split; [reflexivity|]. left. reflexivity. }
     apply Forall_cons. { exact I. }
-    apply Forall_cons. { cbn [snd wf_stmt]. apply Forall_cons; [apply Harg; [reflexivity|reflexivity|eexists; eexists; reflexivity]|].
-                         apply Forall_cons; [apply Harg; [reflexivity|reflexivity|eexists; eexists; reflexivity]|]. apply Forall_nil. }
+    apply Forall_cons. { cbn [snd wf_stmt]. apply Forall_cons; [split; reflexivity|].
+                         apply Forall_cons; [split; reflexivity|]. apply Forall_cons; [split; reflexivity|]. apply Forall_nil. }
     apply Forall_cons. { cbn [snd wf_stmt]. split; [exact I|]. split; [reflexivity|]. left. reflexivity. }
     apply Forall_cons. { cbn [snd wf_stmt]. split; exact I. }
     apply Forall_cons. { cbn [snd wf_stmt]. split; [exact I|]. split; [reflexivity|]. right. split; reflexivity. }
@@ -77,7 +73,7 @@ Proof.
     apply Forall_cons. { exact I. }
     apply Forall_cons. { cbn [snd wf_stmt]. exists 0%nat. eexists. split; [reflexivity|]. split; [lia|]. split; [reflexivity|]. right. reflexivity. }
     apply Forall_cons. { cbn [snd wf_stmt]. apply Forall_nil. }
-    apply Forall_cons. { cbn [snd wf_stmt]. apply Forall_cons; [apply Harg; [reflexivity|reflexivity|eexists; eexists; reflexivity]|]. apply Forall_nil. }
+    apply Forall_cons. { cbn [snd wf_stmt]. apply Forall_cons; [split; reflexivity|]. apply Forall_nil. }
     apply Forall_cons. { cbn [snd wf_stmt]. lia. }
     apply Forall_cons. { exact I. }
     apply Forall_nil. }
